@@ -16,6 +16,7 @@ open YashModel.Generated.RedirConsts
 
 inductive FKind where
   | reg | dir
+  | tty   -- `FileBody::Terminal`: read and written like a regular file, not regular for `fstat`, not truncated
   deriving DecidableEq, Repr
 
 structure File where
@@ -47,7 +48,8 @@ structure World where
 /-- path ids.  0 /dev/stdin, 1 /dev/stdout, 2 /dev/stderr, 3 /tmp/a, 4 /tmp/b (regular files),
     5 /tmp/m (missing), 6 /tmp/x/n (in a missing directory), 7 /tmp/d (directory),
     8 /tmp/a/e (below a regular file), 9 /tmp/p (regular; what pre-opened descriptors refer to);
-    10 /tmp/s (script for `.`); ≥ 11: anonymous here-document files -/
+    10 /tmp/s (script for `.`); 11 /tmp/t (terminal device);
+    ≥ 12: anonymous here-document files -/
 def pathEnotdir : Nat := 8
 
 def fileAt (w : World) (i : Nat) : File := (w.files[i]?).getD ⟨false, .reg, [], false⟩
@@ -137,7 +139,9 @@ def initialFiles : List File :=
     ⟨false, .reg, [], false⟩, ⟨false, .reg, [], false⟩, ⟨true, .dir, [], false⟩,
     ⟨false, .reg, [], false⟩, ⟨true, .reg, [5, 6], false⟩,
     -- 10: /tmp/s, the script the `.` built-in reads (shell text, reported like a tainted file)
-    ⟨true, .reg, [], true⟩ ]
+    ⟨true, .reg, [], true⟩,
+    -- 11: /tmp/t, a terminal device file (existing, not regular)
+    ⟨true, .tty, [7], false⟩ ]
 
 /-- `VirtualSystem::new`: descriptors 0, 1, 2 on /dev/stdin, /dev/stdout, /dev/stderr, read-write and
     appending -/
@@ -165,6 +169,10 @@ inductive Kind where
   | execNotFound -- `exec nosuchcmd`: the operand is not found (127)
   | execNoExec   -- `exec /tmp/a`: the operand exists but cannot be executed (126)
   | commandExecNotFound -- `command exec nosuchcmd`
+  | funcRet      -- a function whose body runs `fds` and then `return 3`
+  | assign       -- an assignment and redirections, no command word
+  | external     -- an executable file that is found; the child's `execve` fails (ENOSYS in the simulator): 126
+  | execBadOption -- `exec --no-such-option`: the built-in reports a usage error and does not retain
   | dot          -- `. /tmp/s` where the script runs `fds`
   | dotMissing   -- `. /tmp/a/e`: the script cannot be opened
   deriving DecidableEq, Repr
@@ -210,7 +218,7 @@ def Kind.isExec : Kind → Bool
 /-- kinds that are special built-ins: a redirection error (or an error the built-in reports)
     interrupts the shell -/
 def Kind.isSpecial : Kind → Bool
-  | .special | .colon | .exec | .execNotFound | .execNoExec | .dot | .dotMissing => true
+  | .special | .colon | .exec | .execNotFound | .execNoExec | .execBadOption | .dot | .dotMissing => true
   | _ => false
 
 /-- `Divert::Interrupt` from a special built-in, or `Divert::Abort` from an `exec` that could not
@@ -228,9 +236,10 @@ def endOrGoOn (w : World) (t : FdTable) (st : Nat) (saved : List SavedFd) : Trac
     `FullCompoundCommand::execute` / `execute_absent_target` around the guard -/
 def runCommand (w : World) (t : FdTable) (k : Kind) (rs : List Redir) (prev : Nat := 0) : Trace :=
   match k with
-  | .empty =>
-    -- no word, no redirection: there is no command at all and `$?` stays
-    if rs.isEmpty then { w := w, t := t, status := some prev } else
+  | .empty | .assign =>
+    -- no word, no redirection: there is no command at all and `$?` stays (an assignment alone is a
+    -- command with status 0)
+    if rs.isEmpty then { w := w, t := t, status := some (if k == .assign then 0 else prev) } else
     -- the subshell's table is a copy of the parent's (`fork_from` copies descriptors and limits)
     let g := performRedirs worldOracle w t rs
     match g.err with
@@ -266,10 +275,15 @@ def runCommand (w : World) (t : FdTable) (k : Kind) (rs : List Redir) (prev : Na
             wrote := some wrote, readRes := some rd, status := some 0, saved := g.saved, script := some fd }
       | .notFound =>
         { w := g.w.message g.t, t := undoRedirs g.t g.saved, status := some 127, saved := g.saved }
+      -- the child (a copy of the table) fails to exec and says so on its descriptor 2
+      | .external =>
+        { w := g.w.message g.t, t := undoRedirs g.t g.saved, status := some 126, saved := g.saved }
+      -- usage error of a special built-in: message, `Interrupt`, nothing retained
+      | .execBadOption => endOrGoOn (g.w.message g.t) (undoRedirs g.t g.saved) 2 g.saved
       | _ =>
         let (w1, wrote, rd) := probeIO g.w g.t
         { w := w1, t := undoRedirs g.t g.saved, during := some (g.w, g.t), wrote := some wrote,
-          readRes := some rd, status := some 0, saved := g.saved }
+          readRes := some rd, status := some (if k == .funcRet then 3 else 0), saved := g.saved }
 
 /-- a script: one command after the other, each from the world and table the previous one left;
     nothing runs after the shell has exited.  Returns each command's table-before and trace. -/
